@@ -195,8 +195,12 @@ package gcsutil
 // reference back. Panics iff the key has no entry or the slot of its lock is empty.
 // ---------------------------------------------------------------------------------------------
 
+// Order of the two steps ("unlocking a key that is not held panics instead of corrupting state"): at the moment the key
+// lock is released - the step that panics when the key is not held - this caller's reference has not been given back
+// yet: the entry is still in the map with the reference count found at entry.
 //@ func (l *TransientLockMap) Unlock
 //@   property C19 C07
+//@   callsite (*countedLock).Unlock requires (key in l.locks) && l.locks[key] == arg0 && arg0.refcount == old(l.locks[key].refcount)
 //@   held l.mu none
 //@   modifies l.locks[key].refcount, mapof(l.locks), ghost(lmTick), ghost(lmLastOp), ghost(lmLastId), ghost(epoch)
 //@   panics iff !old(key in l.locks) || !old(lmFull(l.locks[key])) || old(l.locks[key].refcount) <= 0
